@@ -643,9 +643,41 @@ func runC20(h *Harness) {
 				return
 			}
 		}
+		// a refresh whose very last step fails: the new database is in place, but it cannot be opened again (every
+		// attempt fails). Whatever the clean-up of the failed refresh removes, it is not the database of the location.
+		degraded := false
+		if backend == "disk" && faulty && len(stores) > 0 && tp.Chance(1, 3) {
+			for _, l := range locs {
+				if l.Cur < 2 {
+					l.Cur++
+				}
+				l.State, l.Variant = oGood, ""
+			}
+			h.Disk.StFault = func(nn int, op, file string, size int) (error, int) {
+				if StackHas("LevelDbStore).Update") && StackHas("openDbWithRetries") {
+					return ErrIO, 0
+				}
+				return nil, 0
+			}
+			h.Settle(10*time.Minute + 40*time.Second)
+			h.Disk.StFault = nil
+			h.Quiesce()
+			h.R.NonTrivial = true
+			for u, d := range stores {
+				h.R.Checks++
+				if _, err := os.Stat(filepath.Join(wd, d)); err != nil {
+					h.Violation("C20.live-store-deleted", "after-failed-reopen", "cycle %d: after a refresh whose final reopen of the swapped-in database failed, the database directory %s of location %.50q is gone (%v)", c+1, d, u, err)
+				}
+			}
+			checkQuiescent(n, fmt.Sprintf("cycle %d after a refresh whose final reopen failed", c+1))
+			if len(h.R.Violations) > 0 {
+				return
+			}
+			degraded = true // those stores stay closed (lookups fail closed) until a later refresh: nothing else is asked of this instance
+		}
 		// several NEW locations are met at the same time (handshakes of different clients): each gets its own store, none
 		// answers for another, nothing stray is left - whoever computes names and creates directories concurrently
-		if tp.Chance(1, 3) {
+		if tp.Chance(1, 3) && !degraded {
 			savePre := h.S.pPre
 			h.S.pPre = uint64(Pick(tp, 100, 300, 500)) * (1 << 32) / 1000
 			var fresh []*Location
@@ -680,7 +712,7 @@ func runC20(h *Harness) {
 		// the work_dir belongs to the live instance: a second validator configured with the same work_dir is refused, its
 		// Cleanup (Caddy cleans up a module whose Provision failed) takes nothing away from the owner, and a third one is
 		// refused just the same; the owner's stores are untouched
-		if tp.Chance(1, 3) {
+		if tp.Chance(1, 3) && !degraded {
 			var errs []error
 			for k, tag := range []string{"b", "c"} {
 				x := h.NewNodeOn(fmt.Sprintf("n1c%d%s", c, tag), cfg, wd)
